@@ -54,8 +54,14 @@ def doc_features(doc):
         merge_names = []
         named = set()
         first_latch = None
+        out_bits = set()
         for l in lines:
             head = l[0] if l else ''
+            # a port bit named in an .outputs line and in a later .inputs line (an inout port, outputs first)
+            if head == '.outputs':
+                out_bits |= set((cable_of(t), bit_of(t)) for t in l[1:])
+            if head == '.inputs' and any((cable_of(t), bit_of(t)) in out_bits for t in l[1:]):
+                f.add('inout-outputs-first')
             # header
             if head in ('.inputs', '.outputs', '.clock'):
                 if not hdr_open and head != '.clock':
